@@ -728,7 +728,7 @@ pub fn build_divan(cfg: &RunCfg) -> Result<Divan, String> {
     runner::configure(d, &RunnerCfg { action, timer_tsc: true, sorting_attr: cfg.sort, reverse_sort: cfg.reverse, filters: hook_filters })
 }
 
-fn regex_lite_ok(pattern: &str) -> bool {
+pub fn regex_lite_ok(pattern: &str) -> bool {
     divan::__verif::pure::filter_is_match(&[(true, false, pattern.to_string())], &[]).is_ok()
 }
 
@@ -768,9 +768,19 @@ pub fn child_main(path: &str) {
     // `VCHECK_TWIN_BUILDER`: options set through builder calls *before*
     // `config_with_args()` reads the command line and the environment.
     let builder: Option<OptSpec> = std::env::var("VCHECK_TWIN_BUILDER").ok().and_then(|t| serde_json::from_str(&t).ok());
-    let result = match builder {
-        Some(o) => catch(move || apply_builder(Divan::default(), &o).config_with_args().main()),
-        None => catch(divan::main),
+    // `VCHECK_TWIN_BUILDER_SKIPS`: `[(exact, pattern)]` passed to
+    // `skip_exact` / `skip_regex`, also before `config_with_args()`.
+    let skips: Option<Vec<(bool, String)>> = std::env::var("VCHECK_TWIN_BUILDER_SKIPS").ok().and_then(|t| serde_json::from_str(&t).ok());
+    let result = if builder.is_some() || skips.is_some() {
+        catch(move || {
+            let mut d = apply_builder(Divan::default(), &builder.unwrap_or_default());
+            for (exact, pattern) in skips.unwrap_or_default() {
+                d = if exact { d.skip_exact(pattern) } else { d.skip_regex(pattern.as_str()) };
+            }
+            d.config_with_args().main()
+        })
+    } else {
+        catch(divan::main)
     };
     let report = ChildReport { invocations: std::mem::take(&mut *INVOCATIONS.lock().unwrap()), arg_evals: ARG_EVALS.lock().unwrap().clone() };
     if let Ok(out) = std::env::var("VCHECK_TWIN_LOG") {
